@@ -187,6 +187,11 @@ class World:
         FAULTS.disarm()
         if len(NODE_REGISTRY) != 0:
             raise HarnessError("registry not pristine at run start")
+        if cfg.get("dyn_redefine"):
+            U.redefine_dyn()
+            collect()
+            if len(NODE_REGISTRY) != 0:
+                raise HarnessError("registry not pristine after class redefinition")
 
     # ---- handles / references -----------------------------------------------------------------
     def on(self, p: str) -> bool:
@@ -1474,9 +1479,11 @@ def make_config(rseed: int, prop: str, tier: str, faults: bool) -> dict[str, Any
         infix = "):b=<class 'str'>("
         strpool = ["1" + infix + "2" + e, "3", "1" + e, "2" + infix + "3"] + r.sample(U.STR_POOL, 1)
     leafs = ["LeafA", "LeafB", "LeafA2", "Meta"]
-    extra = ["Vals", "Carrier", "Boom", "Serial", "Upper", "Lit", "Located", "Typed"]
+    extra = ["Vals", "Carrier", "Boom", "Serial", "Upper", "Lit", "Located", "Typed", "Dyn"]
     if prop in ("C01",):
         extra.append("FS")
+        if r.random() < 0.25:
+            leafs += ["Dyn", "Dyn"]
     if prop in ("C04", "C14") and r.random() < 0.85:
         # Serial carries an init=False field with a per-instance default_factory value: duplicate() and
         # deserialization re-run the factory (known findings C14 / C04) -- keep it to a minority of runs
@@ -1533,6 +1540,7 @@ def make_config(rseed: int, prop: str, tier: str, faults: bool) -> dict[str, Any
         "pools": pools,
         "weights": weights,
         "formats": r.sample(list(FORMATS), r.choice([1, 2, 4])),
+        "dyn_redefine": "Dyn" in leafs and r.random() < 0.6,
         "ser_faults": prop in ("C03", "C10", "C04"),
     }
 
